@@ -446,6 +446,13 @@ func init() {
 				rep.sample(map[string]interface{}{"config": cfg.String(), "ops": trunc(opKinds(ops), 400)})
 			}
 		}
+		// pages with overwrite pages that a transaction merely loads / reads while its commit runs the automatic
+		// checkpoint of the overwrite mapping (seeded change C01m: the checkpoint skips them and drops their entries)
+		for i := 0; i < 6; i++ {
+			cfg, ops := ckptTouchScenario(i)
+			rep.count("scenario:loaded-clean-pages-at-automatic-checkpoint", 1)
+			crashHistory(rep, m, cfg, ops, int64(8000+i), f.tier, nil)
+		}
 		// transactions far bigger than one batch of the background writer (1024 queued page writes): the sync
 		// barriers of the commit must cover all of them
 		bigs := []int{2600}
